@@ -337,6 +337,26 @@ Definition term_is (tag : sx) (t : option rerr) : bool :=
 
 Definition is_eof (t : option rerr) : bool := match t with Some REOF => true | _ => false end.
 
+(* the capability lines of the first EHLO/LHLO reply on the wire *)
+Fixpoint ehlo_caps_go (ls : list bytes) (inside : bool) : list bytes :=
+  match ls with
+  | [] => []
+  | l :: r =>
+      if inside then
+        skipn 4 l :: (if line_final l then [] else ehlo_caps_go r true)
+      else if is_prefix (bs "250-Hello ") l then ehlo_caps_go r true
+      else if is_prefix (bs "250 Hello ") l then []
+      else ehlo_caps_go r false
+  end.
+Definition ehlo_caps (wire : bytes) : list bytes := ehlo_caps_go (wire_lines wire) false.
+
+Fixpoint list_bytes_eqb (a b : list bytes) : bool :=
+  match a, b with
+  | [], [] => true
+  | x :: a', y :: b' => bytes_eqb x y && list_bytes_eqb a' b'
+  | _, _ => false
+  end.
+
 Definition expectation_ok (evs dels : list event) (x : sx) : bool :=
   let codes := reply_codes (all_wire evs) in
   match x with
@@ -344,6 +364,11 @@ Definition expectation_ok (evs dels : list event) (x : sx) : bool :=
       if sx_is "expect-codes" t then
         match map_opt sx_N l with
         | Some want => if list_eq_dec N.eq_dec want codes then true else false
+        | None => false
+        end
+      else if sx_is "expect-ehlo" t then
+        match map_opt sx_bytes l with
+        | Some want => list_bytes_eqb want (ehlo_caps (all_wire evs))
         | None => false
         end
       else true
@@ -390,6 +415,10 @@ Definition expectation_ok (evs dels : list event) (x : sx) : bool :=
         negb (existsb (fun e => match e with
                                 | EData _ tm _ _ | EDelivery _ tm _ _ => is_eof tm
                                 | _ => false end) (evs ++ dels))
+      else if sx_is "expect-helo-plain" t then
+        (* the reply to HELO is the single line "250 2.0.0 Hello <domain>" *)
+        existsb (fun l => is_prefix (bs "250 2.0.0 Hello ") l) (wire_lines (all_wire evs))
+        && negb (existsb (fun l => is_prefix (bs "250-2.0.0 Hello ") l) (wire_lines (all_wire evs)))
       else true
   | _ => true
   end.
